@@ -375,6 +375,66 @@ def check_group_copy_profile(core, v, level, how, rec, rng):
         rec.violation('valid-operation-raised:group-copy-profile:%s' % type(e).__name__, case, {'exc': repr(e)[:200]})
 
 
+def _leaf_values(el):
+    from .. import treeinv
+    out = []
+    for e in treeinv.walk(el):
+        if e.classname == 'SubComponent':
+            x = e.value
+            out.append(repr(getattr(x, 'value', x)))
+    return out
+
+
+def check_typed_copy(core, v, level, rec, rng):
+    """a child holding a number, a sequence id or a date (0 included) taken from another element is copied by value: the copy
+    encodes like the source, the source is left as it was - by field, by whole segment, into a message"""
+    from hl7apy import parser
+    cands = []
+    for sname in ('PID', 'OBX', 'NK1', 'PV1', 'EVN', 'OBR', 'AL1', 'DG1'):
+        for r in tables.segments(v).get(sname) or []:
+            if r.ok and r.card[1] != 0 and r.kind == 'leaf' and r.datatype in gen.TYPED and sname != 'MSH':
+                cands.append((sname, r))
+    if not cands:
+        return
+    for sname, r in rng.sample(cands, min(4, len(cands))):
+        lits = gen.TYPED[r.datatype]
+        lit = lits[0] if rng.random() < 0.5 else rng.choice(lits)      # the first literal of NM and SI is 0
+        line = sname + '|' * r.num + lit
+        case = {'kind': 'typed-copy', 'version': v, 'level': level, 'field': r.name, 'value': lit}
+        rec.evaluation(('typed-copy', v, level, r.name, lit))
+        try:
+            src = parser.parse_segment(line, version=v, validation_level=level)
+            line = src.to_er7()
+            held = _leaf_values(src)
+        except Exception:
+            rec.count('typed_copy_source_not_judgeable')       # (what STRICT accepts is C13's business, the encoding C01's)
+            continue
+        try:
+            dst = core.Segment(sname, version=v, validation_level=level)
+            setattr(dst, r.name.lower(), getattr(src, r.name.lower()))
+            got = {'field-copy': dst.to_er7()}
+            if level == 2:
+                m = core.Message('ADT_A01', version=v, validation_level=2)
+                m.add(core.Segment(sname, version=v, validation_level=2))
+                setattr(m, sname.lower(), src)
+                got['segment-copied-into-a-message'] = m.children.list[-1].to_er7()
+            got['source-afterwards'] = src.to_er7()
+            # the values held (not only their encodings) are those of the source
+            vals = {'field-copy': _leaf_values(dst), 'source-afterwards': _leaf_values(src)}
+            if level == 2:
+                vals['segment-copied-into-a-message'] = _leaf_values(m.children.list[-1])
+            badv = {k: x for k, x in vals.items() if x != held}
+            if badv:
+                rec.violation('copy-of-a-typed-leaf-holds-another-value', case, {'source_holds': held, 'differs': badv})
+                continue
+            rec.count('typed_copies_compared')
+            bad = {k: x for k, x in got.items() if x != line}
+            if bad:
+                rec.violation('copy-of-a-typed-leaf-differs-from-the-source', case, {'source': line, 'differs': bad})
+        except Exception as e:
+            rec.violation('typed-copy-raised:%s' % type(e).__name__, case, {'exc': repr(e)[:160]})
+
+
 def hooks_ec(ec):
     return ''.join(ec[k] for k in ('FIELD', 'COMPONENT', 'SUBCOMPONENT', 'REPETITION', 'ESCAPE')) if ec else 'std'
 
@@ -387,6 +447,8 @@ def run_groupcopy(spec, rec):
         ec = None if i % 2 == 0 else gen.delimiter_set(rng, v, with_truncation=False)
         check_group_copy(core, v, 1 + i % 3 % 2, ec, ('proxy', 'element', 'text', 'index')[i % 4], rec, rng,
                          zdst=(i % 5 == 2))
+        if i % 2 == 0:
+            check_typed_copy(core, v, 1 + (i // 2) % 2, rec, rng)
         if i % 3 == 0:
             check_group_copy_profile(core, v, 1 + (i // 3) % 2, ('proxy', 'element', 'text')[(i // 3) % 3], rec, rng)
     rec.seen('versions', v)
@@ -401,6 +463,11 @@ def replay(case, rec):
         from hl7apy import core
         for k in range(8):
             check_group_copy_profile(core, case['version'], case['level'], case['how'], rec, gen.rng_for(k, 'replay'))
+        return
+    if case.get('kind') == 'typed-copy':
+        from hl7apy import core
+        for k in range(40):
+            check_typed_copy(core, case['version'], case['level'], rec, gen.rng_for(k, 'replay'))
         return
     if case.get('kind') == 'group-copy':
         from hl7apy import core
@@ -417,6 +484,8 @@ def replay(case, rec):
 
 def floors(tier, m):
     out = []
+    if m['counters'].get('typed_copies_compared', 0) < 200:
+        out.append('typed leaves copied: %s' % m['counters'].get('typed_copies_compared'))
     c = m['counters']
     if c.get('encoding_comparisons', 0) < 20000:
         out.append('fewer than 20000 lock-step comparisons')
